@@ -9,11 +9,14 @@
 
    Scope (everything else yields the outcome O_unsupported, which the harness does not compare):
    in the model   — ALU (Word.v), stack/dup/swap/push/PUSH0, JUMP/JUMPI/JUMPDEST/PC, memory + expansion gas, SLOAD/SSTORE with
-                    gas and refund, LOG0-4, RETURN/REVERT/STOP/invalid, CALLDATA*/CODE*/RETURNDATA*, ADDRESS/CALLER/
-                    CALLVALUE/ORIGIN/GASPRICE/COINBASE/TIMESTAMP/NUMBER/DIFFICULTY/GASLIMIT/CHAINID/BASEFEE/MSIZE/GAS,
-                    CALL/CALLCODE/DELEGATECALL/STATICCALL with value 0 between the contracts of the world.
-   out of model   — SHA3, BALANCE, SELFBALANCE, EXTCODE*, BLOCKHASH, CREATE, CREATE2, SELFDESTRUCT, value-bearing calls,
-                    calls to the precompile addresses 1..9, thor's native-call interception.
+                    gas and refund, LOG0-4, RETURN/REVERT/STOP/invalid, CALLDATA*/CODE*/RETURNDATA*, the environment reads,
+                    CALL/CALLCODE/DELEGATECALL/STATICCALL incl. value transfer (balances, transfer records, 2300 stipend,
+                    CallNewAccountGas/CallValueTransferGas), BALANCE/SELFBALANCE, EXTCODESIZE/EXTCODECOPY/EXTCODEHASH,
+                    SHA3 (Keccak values are data supplied with the run), CREATE/CREATE2 (thor's address derivation supplied as
+                    data, creation counter, collision, $Master log, init code, size/0xEF/deposit checks), SELFDESTRUCT (as coded:
+                    immediate account deletion, balance to the receiver first — so beneficiary = self burns the balance).
+   out of model   — BLOCKHASH, calls to the precompile addresses 1..9, thor's native-call interception, VTHO (energy): every
+                    account is assumed to start with energy 0 / block time 0, under which energy stays 0 during a clause.
    Numbers are unbounded Z; the uint64 checks of the Go code (Uint64WithOverflow, SafeAdd/SafeMul, the 0xffffffffe0 bound)
    are written out; callGas's uint64 subtraction wraps as in Go.  memoryGasCost's words*words is NOT wrapped at 2^64: it can
    wrap only for >= 2^32 words, i.e. >= 3*2^32 gas, which no harness run can reach (see manifest). *)
@@ -50,30 +53,90 @@ Definition mset (mem : list Z) (off size : Z) (value : list Z) : list Z :=
 
 (* ------------------------------------------------------------------ world, environment, frames *)
 Record log := mkLog { l_addr : Z; l_topics : list Z; l_data : list Z }.
-(* storage: association list, newest binding first, keyed by (contract, slot); logs newest first *)
-Record world := mkWorld { w_store : list (Z * Z * Z); w_logs : list log; w_refund : Z }.
+(* an account as the EVM sees it through runtime/statedb: balance, code, "has a master" (set by thor's OnCreateContract);
+   energy is not modelled (it stays 0 when every account starts with energy 0 / block time 0 and the clause runs at one
+   block time, which is how the harness sets the state up).  Exist = not (balance 0, no code, no master). *)
+Record account := mkAcc { a_bal : Z; a_code : list Z; a_master : bool }.
+Definition empty_acc : account := mkAcc 0 [] false.
+(* accounts and storage: association lists, newest binding first; logs and transfers newest first *)
+Record world := mkWorld {
+  w_accts : list (Z * account); w_store : list (Z * Z * Z); w_logs : list log; w_refund : Z;
+  w_transfers : list (Z * Z * Z); w_suicided : list Z }.
+(* e_newaddrs: thor.CreateContractAddress(txID, clause, counter) for counter = 0, 1, ..; e_hashes: Keccak-256 of every byte
+   string the run hashes (SHA3 operands, init codes, CREATE2 preimages, codes for EXTCODEHASH), computed by the real library *)
 Record env := mkEnv {
-  e_codes : list (Z * list Z); e_origin : Z; e_gasprice : Z; e_coinbase : Z; e_timestamp : Z; e_number : Z;
-  e_difficulty : Z; e_gaslimit : Z; e_chainid : Z; e_basefee : Z }.
+  e_origin : Z; e_gasprice : Z; e_coinbase : Z; e_timestamp : Z; e_number : Z;
+  e_difficulty : Z; e_gaslimit : Z; e_chainid : Z; e_basefee : Z;
+  e_newaddrs : list Z; e_hashes : list (list Z * Z); e_master_topic : Z }.
 Record ctx := mkCtx {
   c_addr : Z; c_caller : Z; c_value : Z; c_code : list Z; c_codelen : Z; c_input : list Z; c_static : bool; c_depth : Z }.
+(* s_cc: evm.contractCreationCount — a plain field of the EVM, NOT covered by snapshots *)
 Record mstate := mkSt {
-  s_pc : Z; s_stack : list Z; s_mem : list Z; s_msize : Z; s_gas : Z; s_ret : list Z; s_world : world }.
+  s_pc : Z; s_stack : list Z; s_mem : list Z; s_msize : Z; s_gas : Z; s_ret : list Z; s_world : world; s_cc : Z }.
 
-Inductive err := E_oog | E_gasoverflow | E_underflow | E_overflow | E_invalid | E_jump | E_write | E_retdata | E_depth.
+Inductive err := E_oog | E_gasoverflow | E_underflow | E_overflow | E_invalid | E_jump | E_write | E_retdata | E_depth
+  | E_balance | E_collision | E_codesize | E_invalidcode | E_codestore.
 Inductive outcome := O_ok | O_revert | O_err (e : err) | O_unsupported | O_fuel.
-Record fres := mkRes { r_out : outcome; r_data : list Z; r_gas : Z; r_world : world }.
+Record fres := mkRes { r_out : outcome; r_data : list Z; r_gas : Z; r_world : world; r_cc : Z }.
 Inductive sres := S_next (s : mstate) | S_halt (r : fres).
 
 Fixpoint sload_l (l : list (Z * Z * Z)) (a k : Z) : Z :=
   match l with [] => 0 | (a', k', v) :: t => if (a' =? a) && (k' =? k) then v else sload_l t a k end.
 Definition sload (w : world) (a k : Z) : Z := sload_l (w_store w) a k.
-Definition sstore (w : world) (a k v : Z) : world := mkWorld ((a, k, v) :: w_store w) (w_logs w) (w_refund w).
-Definition add_log (w : world) (l : log) : world := mkWorld (w_store w) (l :: w_logs w) (w_refund w).
-Definition add_refund (w : world) (g : Z) : world := mkWorld (w_store w) (w_logs w) (w_refund w + g).
-Fixpoint code_of_l (l : list (Z * list Z)) (a : Z) : list Z :=
-  match l with [] => [] | (a', c) :: t => if a' =? a then c else code_of_l t a end.
-Definition code_of (E : env) (a : Z) : list Z := code_of_l (e_codes E) a.
+Definition set_accts (w : world) (x : list (Z * account)) : world :=
+  mkWorld x (w_store w) (w_logs w) (w_refund w) (w_transfers w) (w_suicided w).
+Definition set_store (w : world) (x : list (Z * Z * Z)) : world :=
+  mkWorld (w_accts w) x (w_logs w) (w_refund w) (w_transfers w) (w_suicided w).
+Definition sstore (w : world) (a k v : Z) : world := set_store w ((a, k, v) :: w_store w).
+Definition add_log (w : world) (l : log) : world :=
+  mkWorld (w_accts w) (w_store w) (l :: w_logs w) (w_refund w) (w_transfers w) (w_suicided w).
+Definition add_refund (w : world) (g : Z) : world :=
+  mkWorld (w_accts w) (w_store w) (w_logs w) (w_refund w + g) (w_transfers w) (w_suicided w).
+Definition add_transfer (w : world) (t : Z * Z * Z) : world :=
+  mkWorld (w_accts w) (w_store w) (w_logs w) (w_refund w) (t :: w_transfers w) (w_suicided w).
+Definition mark_suicided (w : world) (a : Z) : world :=
+  mkWorld (w_accts w) (w_store w) (w_logs w) (w_refund w) (w_transfers w) (a :: w_suicided w).
+Fixpoint acct_l (l : list (Z * account)) (a : Z) : account :=
+  match l with [] => empty_acc | (a', x) :: t => if a' =? a then x else acct_l t a end.
+Definition acct (w : world) (a : Z) : account := acct_l (w_accts w) a.
+Definition set_acct (w : world) (a : Z) (x : account) : world := set_accts w ((a, x) :: w_accts w).
+Definition balance (w : world) (a : Z) : Z := a_bal (acct w a).
+Definition code_of (w : world) (a : Z) : list Z := a_code (acct w a).
+Definition is_nil {A} (l : list A) : bool := match l with [] => true | _ => false end.
+(* state.Exists = !Account.IsEmpty() *)
+Definition exists_acct (w : world) (a : Z) : bool :=
+  let x := acct w a in negb (a_bal x =? 0) || negb (is_nil (a_code x)) || a_master x.
+Definition set_bal (w : world) (a v : Z) : world :=
+  let x := acct w a in set_acct w a (mkAcc v (a_code x) (a_master x)).
+Definition set_code (w : world) (a : Z) (c : list Z) : world :=
+  let x := acct w a in set_acct w a (mkAcc (a_bal x) c (a_master x)).
+Definition set_master (w : world) (a : Z) : world :=
+  let x := acct w a in set_acct w a (mkAcc (a_bal x) (a_code x) true).
+(* runtime.newEVM Transfer: nothing for amount 0; SubBalance, AddBalance, AddTransfer *)
+Definition transfer (w : world) (from to amount : Z) : world :=
+  if amount =? 0 then w else
+  let w1 := set_bal w from (balance w from - amount) in
+  let w2 := set_bal w1 to (balance w1 to + amount) in
+  add_transfer w2 (from, to, amount).
+Fixpoint has (l : list Z) (a : Z) : bool := match l with [] => false | x :: t => (x =? a) || has t a end.
+Fixpoint wipe_l (l : list (Z * Z * Z)) (a : Z) : list (Z * Z * Z) :=
+  match l with [] => [] | (a', k, v) :: t => if a' =? a then wipe_l t a else (a', k, v) :: wipe_l t a end.
+(* opSuicide: runtime.OnSuicideContract (balance to the receiver + transfer record; energy is 0), then statedb.Suicide:
+   if the account exists, state.Delete (balance, code, master cleared; storage barrier raised) and the flag is set *)
+Definition selfdestruct (w : world) (self recv : Z) : world :=
+  let bal := balance w self in
+  let w1 := if bal =? 0 then w else add_transfer (set_bal w recv (balance w recv + bal)) (self, recv, bal) in
+  if exists_acct w1 self
+  then mark_suicided (set_store (set_acct w1 self empty_acc) (wipe_l (w_store w1) self)) self
+  else w1.
+Fixpoint list_eqb (a b : list Z) : bool :=
+  match a, b with [] , [] => true | x :: a', y :: b' => (x =? y) && list_eqb a' b' | _, _ => false end.
+Fixpoint hash_l (l : list (list Z * Z)) (d : list Z) : option Z :=
+  match l with [] => None | (p, h) :: t => if list_eqb p d then Some h else hash_l t d end.
+Definition keccak (E : env) (d : list Z) : option Z := hash_l (e_hashes E) d.
+Fixpoint nth_opt (l : list Z) (i : Z) : option Z :=
+  match l with [] => None | x :: t => if i <=? 0 then Some x else nth_opt t (i - 1) end.
+Definition ADDR_MOD : Z := 1461501637330902918203684832716283019655932542976.     (* 2^160 *)
 
 (* ------------------------------------------------------------------ decoding (Shanghai jump table) *)
 Inductive call_kind := K_CALL | K_CALLCODE | K_DELEGATE | K_STATIC.
@@ -141,12 +204,7 @@ Definition writes (i : instr) : bool :=
 
 (* not modelled: the step yields O_unsupported (after stack validation and the static restriction, as those come first) *)
 Definition unsupported (i : instr) (st : list Z) : bool :=
-  match i with
-  | I_SHA3 | I_BALANCE | I_SELFBALANCE | I_EXTCODESIZE | I_EXTCODECOPY | I_EXTCODEHASH | I_BLOCKHASH
-  | I_CREATE | I_CREATE2 | I_SELFDESTRUCT => true
-  | I_CALLI K_CALL | I_CALLI K_CALLCODE => negb (nthz st 2 =? 0)
-  | _ => false
-  end.
+  match i with I_BLOCKHASH => true | _ => false end.
 
 (* ------------------------------------------------------------------ memory size (memory_table.go, common.go) *)
 Definition calc_mem (off len : Z) : option Z :=
@@ -167,6 +225,8 @@ Definition mem_req (i : instr) (st : list Z) : option Z :=
   | I_MSTORE8 => calc_mem_u (s 0) 1
   | I_RETURN | I_REVERT | I_LOG _ | I_SHA3 => calc_mem (s 0) (s 1)
   | I_CALLDATACOPY | I_CODECOPY | I_RETURNDATACOPY => calc_mem (s 0) (s 2)
+  | I_EXTCODECOPY => calc_mem (s 1) (s 3)
+  | I_CREATE | I_CREATE2 => calc_mem (s 1) (s 2)
   | I_CALLI K_CALL | I_CALLI K_CALLCODE => omax (calc_mem (s 5) (s 6)) (calc_mem (s 3) (s 4))
   | I_CALLI K_DELEGATE | I_CALLI K_STATIC => omax (calc_mem (s 4) (s 5)) (calc_mem (s 2) (s 3))
   | _ => Some 0
@@ -198,8 +258,12 @@ Definition alu_gas (a : alu_op) (st : list Z) : Z :=
 Definition oadd (a : option Z) (b : Z) : option Z :=
   match a with Some x => if W64 <=? x + b then None else Some (x + b) | None => None end.
 
-(* result of the gas function: cost, the call gas handed to the callee (evm.callGasTemp), and the world (gasSStore adds the
-   refund while computing the price) *)
+(* the value operand of a call instruction (third stack item of CALL / CALLCODE; the other two carry none) *)
+Definition call_value (k : call_kind) (st : list Z) : Z :=
+  match k with K_CALL | K_CALLCODE => nthz st 2 | _ => 0 end.
+
+(* result of the gas function: cost, the call gas handed to the callee (evm.callGasTemp), and the world (gasSStore and
+   gasSuicide add their refund while computing the price) *)
 Definition gas_cost (cx : ctx) (s : mstate) (i : instr) (newsize : Z) : option (Z * Z * world) :=
   let st := s_stack s in
   let w := s_world s in
@@ -213,8 +277,14 @@ Definition gas_cost (cx : ctx) (s : mstate) (i : instr) (newsize : Z) : option (
   | I_GAS => plain (Some 2)
   | I_PUSH n => plain (Some (if n =? 0 then 2 else 3))
   | I_CALLDATALOAD | I_DUP _ | I_SWAP _ => plain (Some 3)
+  | I_SELFBALANCE => plain (Some 5)
+  | I_BALANCE | I_EXTCODEHASH => plain (Some 400)
+  | I_EXTCODESIZE => plain (Some 700)
+  | I_BLOCKHASH => plain (Some 20)
   | I_CALLDATACOPY | I_CODECOPY | I_RETURNDATACOPY =>
       plain (oadd (oadd mg 3) (to_words (nthz st 2) * 3))
+  | I_EXTCODECOPY => plain (oadd (oadd mg 700) (to_words (nthz st 3) * 3))
+  | I_SHA3 => plain (oadd (oadd mg 30) (to_words (nthz st 1) * 6))
   | I_MLOAD | I_MSTORE | I_MSTORE8 => plain (oadd mg 3)
   | I_SLOAD => plain (Some 200)
   | I_SSTORE =>
@@ -232,14 +302,25 @@ Definition gas_cost (cx : ctx) (s : mstate) (i : instr) (newsize : Z) : option (
       else if W64 <=? size * 8 then None
       else plain (oadd (oadd (oadd mg 375) (Z.of_nat n * 375)) (size * 8))
   | I_RETURN | I_REVERT => plain mg
-  | I_CALLI _ =>
-      match oadd mg 700 with
+  | I_CREATE => plain (oadd mg 32000)
+  | I_CREATE2 => plain (oadd (oadd mg 32000) (to_words (nthz st 2) * 6))
+  | I_SELFDESTRUCT =>
+      let recv := nthz st 0 mod ADDR_MOD in
+      let g := 5000 + (if negb (exists_acct w recv) && negb (balance w (c_addr cx) =? 0) then 25000 else 0) in
+      Some (g, 0, if has (w_suicided w) (c_addr cx) then w else add_refund w 24000)
+  | I_CALLI k =>
+      (* gasCall: 700, + 25000 if value goes to an empty account, + 9000 if value; gasCallCode: 700, + 9000 if value *)
+      let v := call_value k st in
+      let to := nthz st 1 mod ADDR_MOD in
+      let extra :=
+        (match k with K_CALL => if negb (v =? 0) && negb (exists_acct w to) then 25000 else 0 | _ => 0 end)
+        + (if negb (v =? 0) then 9000 else 0) in
+      match oadd mg (700 + extra) with
       | None => None
       | Some base =>
           let cg := call_gas (s_gas s) base (nthz st 0) in
           if W64 <=? base + cg then None else Some (base + cg, cg, w)
       end
-  | _ => None
   end.
 
 (* ------------------------------------------------------------------ jump destinations (contract.go, analysis.go) *)
@@ -256,11 +337,11 @@ Definition valid_jumpdest (cx : ctx) (dest : Z) : bool :=
   (dest <? W64) && (dest <? c_codelen cx) && (nthz (c_code cx) dest =? 91) && is_code_from (c_code cx) 0 0 dest.
 
 (* ------------------------------------------------------------------ one interpreter iteration *)
-Definition halt (o : outcome) (d : list Z) (s : mstate) : sres := S_halt (mkRes o d (s_gas s) (s_world s)).
+Definition halt (o : outcome) (d : list Z) (s : mstate) : sres := S_halt (mkRes o d (s_gas s) (s_world s) (s_cc s)).
 Definition fail (e : err) (s : mstate) : sres := halt (O_err e) [] s.
 (* all updates of a running frame except gas and memory size go through upd *)
 Definition upd (s : mstate) (pc : Z) (st mem ret : list Z) (w : world) : mstate :=
-  mkSt pc st mem (s_msize s) (s_gas s) ret w.
+  mkSt pc st mem (s_msize s) (s_gas s) ret w (s_cc s).
 (* stack.push stores a uint256: every pushed value is reduced to 256 bits (the identity on all values that can occur) *)
 Definition pushw (v : Z) (st : list Z) : list Z := wrap v :: st.
 Definition next (s : mstate) (st : list Z) : sres :=
@@ -297,7 +378,7 @@ Definition pre (cx : ctx) (s : mstate) : pre_res :=
                 let grow := (0 <? newsize) && (s_msize s <? newsize) in
                 let mem' := if grow then s_mem s ++ zeros (newsize - s_msize s) else s_mem s in
                 let msize' := if grow then newsize else s_msize s in
-                P_ok i (mkSt (s_pc s) st mem' msize' (s_gas s - cost) (s_ret s) w') cg
+                P_ok i (mkSt (s_pc s) st mem' msize' (s_gas s - cost) (s_ret s) w' (s_cc s)) cg
           end
       end
   end.
@@ -364,69 +445,164 @@ Definition exec_plain (E : env) (cx : ctx) (i : instr) (s : mstate) : sres :=
       S_next (upd s (s_pc s + 1) (dropz (Z.of_nat n + 2) st) (s_mem s) (s_ret s) (add_log (s_world s) l))
   | I_RETURN => halt O_ok (mslice (s_mem s) a b) s
   | I_REVERT => halt O_revert (mslice (s_mem s) a b) s
+  | I_BALANCE => next s (pushw (balance (s_world s) (a mod ADDR_MOD)) (dropz 1 st))
+  | I_SELFBALANCE => next s (pushw (balance (s_world s) (c_addr cx)) st)
+  | I_EXTCODESIZE => next s (pushw (zlen (code_of (s_world s) (a mod ADDR_MOD))) (dropz 1 st))
+  | I_EXTCODECOPY =>
+      let d := nthz st 3 in
+      next_mem s (dropz 4 st)
+        (mset (s_mem s) b d (get_data (code_of (s_world s) (a mod ADDR_MOD)) (if c <? W64 then c else W64 - 1) d))
+  | I_EXTCODEHASH =>
+      (* Empty -> 0 ; no code -> hash of the empty string ; else hash of the code *)
+      if negb (exists_acct (s_world s) (a mod ADDR_MOD)) then next s (pushw 0 (dropz 1 st))
+      else match keccak E (code_of (s_world s) (a mod ADDR_MOD)) with
+           | Some h => next s (pushw h (dropz 1 st))
+           | None => halt O_unsupported [] s
+           end
+  | I_SHA3 =>
+      match keccak E (mslice (s_mem s) a b) with
+      | Some h => next s (pushw h (dropz 2 st))
+      | None => halt O_unsupported [] s
+      end
+  | I_SELFDESTRUCT =>
+      S_halt (mkRes O_ok [] (s_gas s) (selfdestruct (s_world s) (c_addr cx) (a mod ADDR_MOD)) (s_cc s))
   | _ => halt O_unsupported [] s
   end.
 
 Definition precompile (a : Z) : bool := (1 <=? a) && (a <=? 9).
 
-(* evm.go call / CallCode / DelegateCall / StaticCall for value 0.  d = evm.depth at the call (depth of the calling frame,
-   0 for the top-level entry).  runf is the interpreter for the callee frame.  A failing frame returns the world it was
-   entered with (RevertToSnapshot) and, unless it reverted, no gas. *)
+(* evm.go call / CallCode / DelegateCall / StaticCall.  d = evm.depth at the call (depth of the calling frame, 0 for the
+   top-level entry).  runf is the interpreter for the callee frame.  A failing frame returns the world it was entered with
+   (RevertToSnapshot) and, unless it reverted, no gas.  v is the value operand (0 for DELEGATECALL / STATICCALL). *)
 Definition do_call (runf : ctx -> mstate -> fres) (E : env)
            (self caller_of_self value_of_self : Z) (static : bool) (d : Z)
-           (k : call_kind) (to : Z) (args : list Z) (gas : Z) (w : world) : fres :=
-  if 1024 <? d then mkRes (O_err E_depth) [] gas w
-  else if precompile to then mkRes O_unsupported [] gas w
+           (k : call_kind) (to : Z) (v : Z) (args : list Z) (gas : Z) (w : world) (cc : Z) : fres :=
+  if 1024 <? d then mkRes (O_err E_depth) [] gas w cc
+  else if (match k with K_CALL => negb (v =? 0) | K_CALLCODE => true | _ => false end) && (balance w self <? v)
+  then mkRes (O_err E_balance) [] gas w cc
+  else if precompile to then mkRes O_unsupported [] gas w cc
+  else if (match k with K_CALL => true | _ => false end) && negb (exists_acct w to) && (v =? 0)
+  then mkRes O_ok [] gas w cc                                   (* CALL: !Exist && value == 0 -> return *)
   else
-    let code := code_of E to in
+    let w1 := match k with K_CALL => transfer w self to v | _ => w end in
+    let code := code_of w1 to in
     match code with
-    | [] => mkRes O_ok [] gas w              (* CALL: !Exist -> return; others: Run with no code -> nil, nil *)
+    | [] => mkRes O_ok [] gas w1 cc                             (* Run with no code -> nil, nil *)
     | _ =>
         let cx' :=
           match k with
-          | K_CALL => mkCtx to self 0 code (zlen code) args static (d + 1)
+          | K_CALL => mkCtx to self v code (zlen code) args static (d + 1)
           | K_STATIC => mkCtx to self 0 code (zlen code) args true (d + 1)
-          | K_CALLCODE => mkCtx self self 0 code (zlen code) args static (d + 1)
+          | K_CALLCODE => mkCtx self self v code (zlen code) args static (d + 1)
           | K_DELEGATE => mkCtx self caller_of_self value_of_self code (zlen code) args static (d + 1)
           end in
-        let r := runf cx' (mkSt 0 [] [] 0 gas [] w) in
+        let r := runf cx' (mkSt 0 [] [] 0 gas [] w1 cc) in
         match r_out r with
         | O_ok => r
-        | O_revert => mkRes O_revert (r_data r) (r_gas r) w
-        | O_err e => mkRes (O_err e) [] 0 w
-        | O_unsupported => mkRes O_unsupported [] 0 w
-        | O_fuel => mkRes O_fuel [] 0 w
+        | O_revert => mkRes O_revert (r_data r) (r_gas r) w (r_cc r)
+        | O_err e => mkRes (O_err e) [] 0 w (r_cc r)
+        | O_unsupported => mkRes O_unsupported [] 0 w (r_cc r)
+        | O_fuel => mkRes O_fuel [] 0 w (r_cc r)
         end
     end.
 
 (* opCall / opCallCode / opDelegateCall / opStaticCall *)
 Definition exec_call (runf : ctx -> mstate -> fres) (E : env) (cx : ctx) (k : call_kind) (s : mstate) (cg : Z) : sres :=
   let st := s_stack s in
-  let to := nthz st 1 mod 1461501637330902918203684832716283019655932542976 in    (* Bytes20: low 160 bits *)
-  let v := match k with K_CALL | K_CALLCODE => 1 | _ => 0 end in                  (* these two carry a value operand *)
-  let in_off := nthz st (2 + v) in let in_size := nthz st (3 + v) in
-  let ret_off := nthz st (4 + v) in let ret_size := nthz st (5 + v) in
+  let to := nthz st 1 mod ADDR_MOD in                                             (* Bytes20: low 160 bits *)
+  let hv := match k with K_CALL | K_CALLCODE => 1 | _ => 0 end in                 (* these two carry a value operand *)
+  let v := call_value k st in
+  let in_off := nthz st (2 + hv) in let in_size := nthz st (3 + hv) in
+  let ret_off := nthz st (4 + hv) in let ret_size := nthz st (5 + hv) in
   let args := mslice (s_mem s) in_off in_size in
-  let r := do_call runf E (c_addr cx) (c_caller cx) (c_value cx) (c_static cx) (c_depth cx) k to args cg (s_world s) in
+  let gas := if v =? 0 then cg else cg + 2300 in                                  (* params.CallStipend *)
+  let r := do_call runf E (c_addr cx) (c_caller cx) (c_value cx) (c_static cx) (c_depth cx) k to v args gas
+                   (s_world s) (s_cc s) in
   match r_out r with
-  | O_unsupported | O_fuel => S_halt (mkRes (r_out r) [] 0 (s_world s))
+  | O_unsupported | O_fuel => S_halt (mkRes (r_out r) [] 0 (s_world s) (r_cc r))
   | o =>
       let flag := match o with O_ok => 1 | _ => 0 end in
       let mem' := match o with O_ok | O_revert => mset (s_mem s) ret_off ret_size (r_data r) | _ => s_mem s end in
-      S_next (mkSt (s_pc s + 1) (flag :: dropz (6 + v) st) mem' (s_msize s) (s_gas s + r_gas r) (r_data r) (r_world r))
+      S_next (mkSt (s_pc s + 1) (flag :: dropz (6 + hv) st) mem' (s_msize s) (s_gas s + r_gas r) (r_data r) (r_world r)
+                   (r_cc r))
+  end.
+
+(* evm.go create(): depth, balance, (nonce: no-op in thor), creation counter, collision, snapshot, OnCreateContract (master +
+   $Master log), transfer, run the init code, size / 0xEF / deposit-gas checks, SetCode; failure reverts to the snapshot.
+   addr is the new contract's address (computed by the caller of create()). *)
+Definition do_create (runf : ctx -> mstate -> fres) (E : env) (self : Z) (static : bool) (d : Z)
+           (addr : Z) (init : list Z) (v : Z) (gas : Z) (w : world) (cc : Z) : fres :=
+  if 1024 <? d then mkRes (O_err E_depth) [] gas w cc
+  else if balance w self <? v then mkRes (O_err E_balance) [] gas w cc
+  else
+    let cc1 := cc + 1 in
+    if negb (is_nil (code_of w addr)) then mkRes (O_err E_collision) [] 0 w cc1
+    else
+      let w1 := add_log (set_master w addr) (mkLog addr [e_master_topic E] (word_bytes self)) in
+      let w2 := transfer w1 self addr v in
+      let cx' := mkCtx addr self v init (zlen init) [] static (d + 1) in
+      let r := match init with
+               | [] => mkRes O_ok [] gas w2 cc1
+               | _ => runf cx' (mkSt 0 [] [] 0 gas [] w2 cc1)
+               end in
+      match r_out r with
+      | O_ok =>
+          let ret := r_data r in
+          if 24576 <? zlen ret then mkRes (O_err E_codesize) [] 0 w (r_cc r)
+          else if negb (is_nil ret) && (nthz ret 0 =? 239) then mkRes (O_err E_invalidcode) [] 0 w (r_cc r)    (* 0xEF *)
+          else if r_gas r <? zlen ret * 200 then mkRes (O_err E_codestore) [] 0 w (r_cc r)
+          else mkRes O_ok [] (r_gas r - zlen ret * 200) (set_code (r_world r) addr ret) (r_cc r)
+      | O_revert => mkRes O_revert (r_data r) (r_gas r) w (r_cc r)
+      | O_err e => mkRes (O_err e) [] 0 w (r_cc r)
+      | O_unsupported => mkRes O_unsupported [] 0 w (r_cc r)
+      | O_fuel => mkRes O_fuel [] 0 w (r_cc r)
+      end.
+
+(* instructions.go opCreate / opCreate2 *)
+Definition exec_create (runf : ctx -> mstate -> fres) (E : env) (cx : ctx) (two : bool) (s : mstate) : sres :=
+  let st := s_stack s in
+  let v := nthz st 0 in
+  let init := mslice (s_mem s) (nthz st 1) (nthz st 2) in
+  let gas := s_gas s - s_gas s / 64 in
+  let keep := s_gas s - gas in
+  let oaddr :=
+    if two then
+      match keccak E init with
+      | None => None
+      | Some h1 =>
+          match keccak E (255 :: dropz 12 (word_bytes (c_addr cx)) ++ word_bytes (nthz st 3) ++ word_bytes h1) with
+          | None => None
+          | Some h2 => Some (h2 mod ADDR_MOD)
+          end
+      end
+    else nth_opt (e_newaddrs E) (s_cc s) in
+  match oaddr with
+  | None => halt O_unsupported [] s
+  | Some addr =>
+      let r := do_create runf E (c_addr cx) (c_static cx) (c_depth cx) addr init v gas (s_world s) (s_cc s) in
+      match r_out r with
+      | O_unsupported | O_fuel => S_halt (mkRes (r_out r) [] 0 (s_world s) (r_cc r))
+      | o =>
+          let res := match o with O_ok => addr | _ => 0 end in
+          let rd := match o with O_revert => r_data r | _ => [] end in
+          S_next (mkSt (s_pc s + 1) (pushw res (dropz (if two then 4 else 3) st)) (s_mem s) (s_msize s) (keep + r_gas r) rd
+                       (r_world r) (r_cc r))
+      end
   end.
 
 Definition step (runf : ctx -> mstate -> fres) (E : env) (cx : ctx) (s : mstate) : sres :=
   match pre cx s with
   | P_halt r => r
   | P_ok (I_CALLI k) s1 cg => exec_call runf E cx k s1 cg
+  | P_ok I_CREATE s1 _ => exec_create runf E cx false s1
+  | P_ok I_CREATE2 s1 _ => exec_create runf E cx true s1
   | P_ok i s1 _ => exec_plain E cx i s1
   end.
 
 (* interpreter.Run: the loop.  One unit of fuel per iteration; a callee runs on the remaining fuel. *)
 Fixpoint run (fuel : nat) (E : env) (cx : ctx) (s : mstate) : fres :=
   match fuel with
-  | O => mkRes O_fuel [] 0 (s_world s)
+  | O => mkRes O_fuel [] 0 (s_world s) (s_cc s)
   | S f =>
       match step (run f E) E cx s with
       | S_next s' => run f E cx s'
@@ -434,9 +610,9 @@ Fixpoint run (fuel : nat) (E : env) (cx : ctx) (s : mstate) : fres :=
       end
   end.
 
-(* the entry used by runtime.PrepareClause: evm.Call(origin, to, input, gas, 0) at depth 0 *)
-Definition call_top (fuel : nat) (E : env) (static : bool) (to : Z) (input : list Z) (gas : Z) (w : world) : fres :=
-  do_call (run fuel E) E (e_origin E) (e_origin E) 0 static 0 K_CALL to input gas w.
+(* the entry used by runtime.PrepareClause: evm.Call(origin, to, input, gas, value) at depth 0, creation counter 0 *)
+Definition call_top (fuel : nat) (E : env) (static : bool) (to : Z) (v : Z) (input : list Z) (gas : Z) (w : world) : fres :=
+  do_call (run fuel E) E (e_origin E) (e_origin E) 0 static 0 K_CALL to v input gas w 0.
 
 (* ------------------------------------------------------------------ canonical view of the final storage (newest binding
    per (contract, slot), in first-seen order); used by the oracle driver for printing *)
@@ -448,3 +624,11 @@ Fixpoint store_view_l (l : list (Z * Z * Z)) (seen : list (Z * Z)) : list (Z * Z
   | (a, k, v) :: t => if seen_in seen a k then store_view_l t seen else (a, k, v) :: store_view_l t ((a, k) :: seen)
   end.
 Definition store_view (w : world) : list (Z * Z * Z) := store_view_l (w_store w) [].
+
+(* newest binding per account, first-seen order *)
+Fixpoint acct_view_l (l : list (Z * account)) (seen : list Z) : list (Z * account) :=
+  match l with
+  | [] => []
+  | (a, x) :: t => if has seen a then acct_view_l t seen else (a, x) :: acct_view_l t (a :: seen)
+  end.
+Definition acct_view (w : world) : list (Z * account) := acct_view_l (w_accts w) [].
